@@ -4,6 +4,9 @@ from .cell import CellType
 
 def format_number(n, n_type):
     'Convert the given number to a string, the way QB used to do.'
+    if n == 0:
+        # negative zero (e.g. 0 / -3) is shown as 0, not "-0"
+        n = abs(n)
     if n_type == CellType.SINGLE:
         n = ctypes.c_float(n).value
         sn = str(n)
